@@ -519,9 +519,9 @@ def run_unit(unit_name, tier, seed, workdir=None):
     # Functions whose text the verifier rejects (unsupported construct after a source change) are replaced by
     # external_body stubs carrying their contract, so that the rest of the unit is still decided; the
     # obligations of the stubbed function itself are reported as undecided, never as discharged.
-    helpers, rejected = {}, set()
+    helpers, rejected, inlines = {}, set(), {}
     for _round in range(8):
-        g = gen.generate(unit_name, force_stub=tuple(unverifiable), workdir=workdir, extra_helpers=tuple(helpers.values()))
+        g = gen.generate(unit_name, force_stub=tuple(unverifiable), workdir=workdir, extra_helpers=tuple(helpers.values()), inline_helpers=inlines)
         probe = verify.run_verus(g['path'], 0, rl, 8, ['--no-verify'])
         pc = verify.classify(g, probe)
         bad = {}
@@ -533,8 +533,12 @@ def run_unit(unit_name, tier, seed, workdir=None):
                 for ln in t.get('lines') or [t.get('line')]:
                     owner = verify._owner(g['linemap'], ln) if ln else None
                     if owner and owner.startswith('helper::') and owner[len('helper::'):] in helpers:
-                        del helpers[owner[len('helper::'):]]
-                        rejected.add(owner[len('helper::'):])
+                        hn0 = owner[len('helper::'):]
+                        info0 = helpers.pop(hn0)
+                        rejected.add(hn0)
+                        if info0.get('inline') and hn0 not in inlines:
+                            # its body is not spec-able: substitute the body for the calls instead (second form of R4h)
+                            inlines[hn0] = info0['inline']
                         added = True
         if not added and helpers and any(t.get('kind') in ('rustc', 'tool') and not any(verify._owner(g['linemap'], ln) for ln in (t.get('lines') or [t.get('line')]) if ln) for t in pc['tool_errors']):
             # an error that cannot be located in any function while helpers are present (e.g. a syntax error caused by one): drop them all
